@@ -238,6 +238,26 @@ theorem combo_roots_card (ds : List G) (h : ∃ d ∈ ds, d ≠ 0) (S : Finset F
     _ ≤ (ds.map ψ).length - 1 := hornerPoly_natDegree _
     _ = ds.length - 1 := by simp
 
+open Polynomial in
+/-- The same bound as a set: the challenges at which the combination vanishes although some
+`δᵢ ≠ 0` all lie in one finite set of at most `n − 1` elements (the roots of a non-zero
+polynomial of degree `≤ n − 1`). -/
+theorem combo_bad_set (ds : List G) (h : ∃ d ∈ ds, d ≠ 0) :
+    ∃ bad : Finset F, bad.card ≤ ds.length - 1 ∧ ∀ r, combo r ds = 0 → r ∈ bad := by
+  classical
+  obtain ⟨d, hd, hne⟩ := h
+  obtain ⟨ψ, hψ⟩ := exists_functional_ne_zero (F := F) d hne
+  have hp : hornerPoly (ds.map ψ) ≠ 0 :=
+    hornerPoly_ne_zero _ ⟨ψ d, List.mem_map.mpr ⟨d, hd, rfl⟩, hψ⟩
+  refine ⟨(hornerPoly (ds.map ψ)).roots.toFinset, ?_, ?_⟩
+  · calc (hornerPoly (ds.map ψ)).roots.toFinset.card
+        ≤ Multiset.card (hornerPoly (ds.map ψ)).roots := Multiset.toFinset_card_le _
+      _ ≤ (hornerPoly (ds.map ψ)).natDegree := card_roots' _
+      _ ≤ (ds.map ψ).length - 1 := hornerPoly_natDegree _
+      _ = ds.length - 1 := by simp
+  · intro r hr
+    rw [Multiset.mem_toFinset, mem_roots hp, IsRoot.def, hornerPoly_eval, ← map_combo, hr, map_zero]
+
 end
 
 end MidnightZK.C15
